@@ -17,8 +17,8 @@ from lib.common import MachineryError, classify_mismatches, log
 
 PKG = "./p2p/net/conngater"
 
-INV = "INVARIANTS TypeOK DurableDisk Durable NoSpurious MemDiskAgree"
-PROPS = "PROPERTIES WriteBeforeMem NeverAdmitted DialRefusedEarly ClosedAtAccept ClosedAfterHandshake NotOverBlocking"
+INV = "INVARIANTS TypeOK DurableDisk Durable NoSpurious MemDiskAgree PathsGated"
+PROPS = "PROPERTIES WriteBeforeMem NeverAdmitted DialRefusedEarly NoNewConnOnceBlocked ClosedAtAccept ClosedAfterHandshake NotOverBlocking"
 
 
 def _fast_unescape(s, _slow=tlc._unescape):
@@ -32,10 +32,14 @@ def S(names):
     return "{" + ", ".join('"%s"' % n for n in names) + "}"
 
 
+ALL_OPTS = ("plain", "force", "simc", "sims", "hpc", "hps", "nodial", "limited")
+ALL_PRES = ("none", "relayed", "direct")
+
+
 def inst(name, peers, addrs, subnets, eps=(), dirs=("out", "in"), tpts=("tcp",), faults=("fail", "crash"),
-         exclusive=False):
+         exclusive=False, pres=("none",), opts=("plain",)):
     return name, {"PeerRules": S(peers), "AddrRules": S(addrs), "SubnetRules": S(subnets), "EPs": S(eps),
-                  "Dirs": S(dirs), "Tpts": S(tpts), "Faults": S(faults),
+                  "Dirs": S(dirs), "Tpts": S(tpts), "Faults": S(faults), "Pres": S(pres), "Opts": S(opts),
                   "Exclusive": "TRUE" if exclusive else "FALSE"}
 
 
@@ -48,7 +52,9 @@ def exhaustive_instances(ctx):
             # calls, faults and attempts from three endpoints over two transports interleaved
             inst("mixed5", ("p2",), ("a2", "a6"), ("n31", "n8"), eps=("e22", "e33", "e66"), tpts=("tcp", "quic")),
         ]
-    return [inst("mixed4", ("p2",), ("a2", "a6"), ("n31",), eps=("e22", "e33", "e66"), tpts=("tcp", "quic"))]
+    return [inst("mixed4", ("p2",), ("a2", "a6"), ("n31",), eps=("e22", "e33", "e66"), tpts=("tcp",)),
+            # every way an attempt can be made x what the swarm already holds, interleaved with rule calls and faults
+            inst("paths2x", ("p2",), ("a2",), (), eps=("e22",), tpts=("tcp", "quic"), pres=ALL_PRES, opts=ALL_OPTS)]
 
 
 def replay_instances(ctx):
@@ -73,10 +79,27 @@ def alias_instance(ctx):
     return inst("alias4", (), (), ("n31", "n31h", "n8", "n8h"))
 
 
-def net_instance(ctx):
-    tpts = ("tcp", "quic", "ws")
-    return inst("net6", ("p2",), ("a2", "a6"), ("n31", "n8", "n128"), eps=("e22", "e33", "e66"),
-                tpts=tpts, faults=("crash",), exclusive=True)
+def net_instances(ctx):
+    """Executed on real swarms, consultation by consultation (every transition of each instance)."""
+    out = [
+        # block before the attempt (Exclusive): every rule set x three remotes x both directions x TCP/QUIC/WebSocket,
+        # restarts of the gater in between
+        inst("net6", ("p2",), ("a2", "a6"), ("n31", "n8", "n128"), eps=("e22", "e33", "e66"),
+             tpts=("tcp", "quic", "ws"), faults=("crash",), exclusive=True),
+        # what the swarm already holds (nothing / relayed / direct) x how the attempt is made (DialPeer plain, forced
+        # direct, simultaneous connect client/server, both = hole punch; NewStream NoDial / AllowLimitedConn)
+        inst("paths", ("p2",), ("a2",), (), eps=("e22",), tpts=("tcp", "quic"), faults=(), exclusive=True,
+             pres=ALL_PRES, opts=ALL_OPTS),
+        # rule calls INTERLEAVED with the stages of an attempt (block between InterceptPeerDial and the transport dial,
+        # between the start of a hole punch and the arrival of the remote's connection at the listener ...)
+        inst("race", ("p2",), ("a2",), (), eps=("e22",), tpts=("tcp", "quic"), faults=(),
+             pres=("none", "relayed"), opts=("plain", "hps")),
+        # the transports with gating call sites of their own, both directions, remote at ::1
+        inst("xports", ("p6",), ("a6",), ("n128",), eps=("e66",), tpts=("quic", "wt"), faults=(), exclusive=True),
+        # WebRTC chooses its own source address (any address of the machine): the address rule is ::/0
+        inst("xrtc", ("p6",), (), ("n0",), eps=("e66",), tpts=("rtc",), faults=(), exclusive=True),
+    ]
+    return out
 
 
 def _exhaustive(args):
@@ -133,7 +156,7 @@ def _printed(args):
     ctx, (name, consts), beh_dir, mode = args
     cfg = tlc.subst_cfg("C10_MC.cfg", consts, replace=[
         ("INIT Init", "INIT MCInit"), ("VIEW View", "VIEW ViewNoGhost\nACTION_CONSTRAINT EmitEdge"),
-        (INV, "INVARIANTS TypeOK MemDiskAgree"), (PROPS, "PROPERTIES WriteBeforeMem ClosedAtAccept ClosedAfterHandshake NotOverBlocking")])
+        (INV, "INVARIANTS TypeOK MemDiskAgree PathsGated"), (PROPS, "PROPERTIES WriteBeforeMem ClosedAtAccept ClosedAfterHandshake NotOverBlocking")])
     r = tlc.run(ctx, "C10_MC", "gen_%s_edges.cfg" % name, cfg_text=cfg, workers=1, timeout=1500, name="ed" + name)
     if not r.ok:
         raise MachineryError("design-level failure in C10 %s (printing run): %s\n%s" % (name, r.violated, r.out[-2500:]))
@@ -168,7 +191,7 @@ def _printed(args):
 
 REPLAY_KINDS = ("begin", "write:ok", "write:fail", "finish", "crash:idle", "crash:atwrite", "crash:written", "reopen",
                 "att_step:admitted@upgraded:out", "att_step:admitted@upgraded:in", "att_step:refused@peerdial:out",
-                "att_step:refused@addrdial:out", "att_step:refused@accept:in", "att_step:refused@secured:in")
+                "att_step:refused@addrdial:out", "att_step:refused@accept:in", "att_step:refused@secured_in:in")
 
 
 def run(ctx):
@@ -177,7 +200,7 @@ def run(ctx):
     thorough = ctx.tier == "thorough"
     tlc.stage(ctx)
     beh_dir, net_dir = ctx.sub("beh"), ctx.sub("net")
-    einsts, rinsts, ninst = exhaustive_instances(ctx), replay_instances(ctx), net_instance(ctx)
+    einsts, rinsts, ninsts = exhaustive_instances(ctx), replay_instances(ctx), net_instances(ctx)
     ainst = alias_instance(ctx)
     rinsts = rinsts + [ainst]
     net_mode = "cover"
@@ -189,13 +212,13 @@ def run(ctx):
         fb = pb.submit(goenv.go_test, ctx, PKG, "^$", None, 1500)
         fe = [pe.submit(_exhaustive, (ctx, i, 2)) for i in einsts]
         fr = [pr.submit(_printed, (ctx, i, beh_dir, "cover")) for i in rinsts]
-        fn = pr.submit(_printed, (ctx, ninst, net_dir, net_mode))
+        fn = [pr.submit(_printed, (ctx, i, net_dir, net_mode)) for i in ninsts]
         probe_inst = inst("probe3", ("p2",), ("a2",), ("n31",), eps=("e22", "e23"))
         fa = pr.submit(_exhaustive, (ctx, ainst, 1))
         fg = [pr.submit(_probe, (ctx, probe_inst, p, isp)) for p, isp in
               (("ReachMemDiskDiffer", False), ("ReachFreeAfterReopen", False), ("ReachAdmittedWhileSomeRule", True))]
         rres = [f.result() for f in fr]
-        nres = fn.result()
+        nress = [f.result() for f in fn]
         guards = [f.result() for f in fg]
         ares = fa.result()
         log("C10: graphs and walks done at %.1fs" % ctx.wall())
@@ -240,23 +263,23 @@ def run(ctx):
             if not nx.get(k):
                 raise MachineryError("vacuity guard: network composition ran no %s" % k)
 
-    states = sum(r[1] for r in eres) + sum(r[1] for r in rres) + nres[1] + ares[1]
-    trans = sum(r[2] for r in eres) + sum(r[2] for r in rres) + nres[2] + ares[2]
+    states = sum(r[1] for r in eres) + sum(r[1] for r in rres) + sum(r[1] for r in nress) + ares[1]
+    trans = sum(r[2] for r in eres) + sum(r[2] for r in rres) + sum(r[2] for r in nress) + ares[2]
     log("C10: exhaustive %s; printed %s; net %s; replay %d walks %d steps (%d distinct of %d); net %d walks %d steps %s; L2 divergences %d; guards %s"
         % ([(r[0], r[1], r[2], r[3]) for r in eres], [(r[0], r[1], r[3], r[7]) for r in rres],
-           (nres[0], nres[1], nres[3]), res["replayed"], res["steps"], res["distinct"], edges_total,
+           [(r[0], r[1], r[3]) for r in nress], res["replayed"], res["steps"], res["distinct"], edges_total,
            net["replayed"], net["steps"], {k: v for k, v in nx.items() if k.startswith("attempts")}, div, guards))
     cov = evidence.mc_coverage(
         states, trans, res["replayed"] + net["replayed"], res.get("samples") or [], exhaustive=True,
         checker_cmd="tlc C10_MC.tla (template C10_MC.cfg instantiated: exhaustive %s; printed+replayed %s; composition %s)" % (
-            ",".join(r[0] for r in eres), ",".join(r[0] for r in rres), nres[0]),
+            ",".join(r[0] for r in eres), ",".join(r[0] for r in rres), ",".join(r[0] for r in nress)),
         instances=len(eres) + len(rres) + 1,
         exhaustive_only={r[0]: {"states": r[1], "transitions": r[2], "wall_s": r[3]} for r in eres},
         replay_instances={r[0]: {"states": r[1], "transitions": r[3], "walks": r[4], "steps": r[5]} for r in rres},
         replay_transitions_in_graphs=edges_total, replay_steps_executed=res["steps"],
         replay_distinct_transitions_executed=res["distinct"], replay_transition_kinds=tot,
         replay_extra=res.get("extra"),
-        net_instance={"name": nres[0], "states": nres[1], "transitions": nres[3], "walks": nres[4], "steps": nres[5]},
+        net_instances={r[0]: {"states": r[1], "transitions": r[3], "walks": r[4], "steps": r[5]} for r in nress},
         net_extra=nx, vacuity_probes=guards,
         alias_regression_instance={"name": ares[0], "states": ares[1], "transitions": ares[2],
                                    "all_invariants_hold": True}, divergences_L2=div, notes=ctx.notes[:10], rule=res.get("rule"),
